@@ -65,6 +65,11 @@ type timestampOracle struct {
 	tsoMux *tsoObject
 	// last timestamp window stored in etcd
 	lastSavedTime atomic.Value // stored as time.Time
+	// updateMu serializes the paths that decide on and persist a new time window
+	// (SyncTimestamp, UpdateTimestamp and resetUserTimestamp), so that none of them
+	// saves a window computed from a view the other one has already changed.
+	// Lock order: updateMu before tsoMux.
+	updateMu sync.Mutex
 	suffix        int
 	dcLocation    string
 }
@@ -182,6 +187,8 @@ func (t *timestampOracle) saveTimestamp(leadership *election.Leadership, ts time
 
 // SyncTimestamp is used to synchronize the timestamp.
 func (t *timestampOracle) SyncTimestamp(leadership *election.Leadership) error {
+	t.updateMu.Lock()
+	defer t.updateMu.Unlock()
 	tsoCounter.WithLabelValues("sync", t.dcLocation).Inc()
 
 	failpoint.Inject("delaySyncTimestamp", func() {
@@ -234,6 +241,8 @@ func (t *timestampOracle) isInitialized() bool {
 // When ignoreSmaller is true, resetUserTimestamp will ignore the smaller tso resetting error and do nothing.
 // It's used to write MaxTS during the Global TSO synchronization whitout failing the writing as much as possible.
 func (t *timestampOracle) resetUserTimestamp(leadership *election.Leadership, tso uint64, ignoreSmaller bool) error {
+	t.updateMu.Lock()
+	defer t.updateMu.Unlock()
 	t.tsoMux.Lock()
 	defer t.tsoMux.Unlock()
 	if !leadership.Check() {
@@ -294,6 +303,8 @@ func (t *timestampOracle) resetUserTimestamp(leadership *election.Leadership, ts
 // 2. The physical time is monotonically increasing.
 // 3. The physical time is always less than the saved timestamp.
 func (t *timestampOracle) UpdateTimestamp(leadership *election.Leadership) error {
+	t.updateMu.Lock()
+	defer t.updateMu.Unlock()
 	prevPhysical, prevLogical := t.getTSO()
 	tsoGauge.WithLabelValues("tso", t.dcLocation).Set(float64(prevPhysical.UnixNano() / int64(time.Millisecond)))
 	tsoGap.WithLabelValues(t.dcLocation).Set(float64(time.Since(prevPhysical).Milliseconds()))
